@@ -162,7 +162,12 @@ def tlc_trace(module, cfg, trace_path, wd, tag="tv", timeout=1800):
     if not r["ok"]:
         log(out[-4000:])
         raise ToolTrouble("TLC failed while validating %s with %s: %s" % (trace_path, module, r["error"]))
+    for m in re.finditer(r'<<"STATS", "(\w+)", (\d+)>>', out):
+        LAST_STATS[m.group(1)] = LAST_STATS.get(m.group(1), 0) + int(m.group(2))
     return True, r["distinct"], None, None, None
+
+
+LAST_STATS = {}
 
 
 def read_ndjson(path):
